@@ -500,7 +500,7 @@ def exViewF : Bytes := [74, 85, 78, 75] ++ exHex
 
 theorem exParms_of : ParmsOf exParms ⟨12, 1, 29, 8⟩ where
   pred := rfl
-  cols := rfl
+  cols := .inl rfl
   colors := .inr ⟨rfl, rfl⟩
   bpc := .inr ⟨rfl, rfl⟩
   acc := by decide
@@ -539,6 +539,33 @@ example : ∃ ctx', objStmParse objDec 0 ctx0 (stmDict .parallel exFs 3 21 169) 
   refine ⟨ctx', h1, h3 _ List.mem_cons_self, h3 _ (List.mem_cons_of_mem _ List.mem_cons_self),
     h3 _ (List.mem_cons_of_mem _ (List.mem_cons_of_mem _ List.mem_cons_self)), ?_⟩
   rw [h4 (3, 0) (by decide)]; rfl
+
+/-- A SINGLE-COLUMN image with /Columns (and /Colors, /BitsPerComponent) left out of /DecodeParms: the
+    dictionary `<</Predictor 12>>` carries the parameters (12, 1, 1, 8) (`ParmsOf` with all three defaults of
+    ISO 32000-1 Table 8), and the loader's FlateDecode returns the rows of any stored-block zlib stream of
+    the PNG-Up-filtered one-byte rows.  With `/Columns 2` in the same dictionary the same stream is
+    rejected: the default is observable on this input. -/
+def exParms1 : Dict := [(Loader.kPredictor, .int 12)]
+
+theorem exParms1_of : ParmsOf exParms1 ⟨12, 1, 1, 8⟩ where
+  pred := rfl
+  cols := .inr ⟨rfl, rfl⟩
+  colors := .inr ⟨rfl, rfl⟩
+  bpc := .inr ⟨rfl, rfl⟩
+  acc := by decide
+  colsLt := by decide
+  fit1 := by decide
+  fit2 := by decide
+
+example :
+    let rows : List Bytes := [[55], [32], [57]]
+    let z := FiltersSpec.zlibStored [PredSpec.predict ⟨12, 1, 1, 8⟩ rows]
+    PredSpec.predict ⟨12, 1, 1, 8⟩ rows = [2, 55, 2, 233, 2, 25] ∧
+    objDec ⟨ObjStm.nFlate, some exParms1⟩ z = .ok [55, 32, 57] ∧
+    objDec ⟨ObjStm.nFlate, some [(Loader.kColumns, .int 2), (Loader.kPredictor, .int 12)]⟩ z = .err .transform := by
+  refine ⟨by decide, ?_, by decide +kernel⟩
+  exact flate_pred_layer exParms1 ⟨12, 1, 1, 8⟩ [[55], [32], [57]] _ exParms1_of (by decide) (.inr (by decide))
+    (by decide +kernel)
 
 /-- the rejection side, concretely: an illegal `G` in front of the hex text ... -/
 example : ∃ k', objStmParse objDec 0 ctx0 (stmDict .parallel exFs 3 21 166) ([71] ++ exHex) 0 = (.err k', ctx0) :=
